@@ -33,6 +33,13 @@ static CONFIRMED: std::sync::Mutex<Vec<(u64, u64, u64, u8)>> = std::sync::Mutex:
 static HOLD_SUBS: AtomicBool = AtomicBool::new(false);
 static SUBS_HELD: AtomicU64 = AtomicU64::new(0);
 
+/// while set, the confirmation actor does not start processing UpdateConfirmationWithBroadcast (hook K7)
+static HOLD_CONFIRM: AtomicBool = AtomicBool::new(false);
+
+pub fn hold_confirmation_updates(on: bool) {
+    HOLD_CONFIRM.store(on, Ordering::SeqCst);
+}
+
 pub fn hold_subscriptions(on: bool) {
     HOLD_SUBS.store(on, Ordering::SeqCst);
 }
@@ -84,6 +91,7 @@ pub fn rebaseline() {
 }
 
 pub fn reset_activity() {
+    HOLD_CONFIRM.store(false, Ordering::SeqCst);
     HOLD_SUBS.store(false, Ordering::SeqCst);
     SUBS_HELD.store(0, Ordering::SeqCst);
     ORDER.store(0, Ordering::SeqCst);
@@ -122,6 +130,9 @@ impl Sim for ClusterSim {
                 CONFIRMED.lock().unwrap().push((o, a, b & !0xff, (b & 0xff) as u8));
             }
             _ => {}
+        }
+        if site == "confirm:update" && HOLD_CONFIRM.load(Ordering::SeqCst) {
+            return Action::Yield;
         }
         if site == "sub:history:batch" && HOLD_SUBS.load(Ordering::SeqCst) {
             SUBS_HELD.fetch_add(1, Ordering::SeqCst);
